@@ -28,6 +28,22 @@ def gc_mask(k):
     return out
 
 
+ROAD3 = [1, 6, 24, 34, 9, 37, 20, 19, 15, 62, 58, 43, 45, 55, 28]            # induced dead-end roads (one trimming round per vertex)
+ROAD4 = [12, 51, 207, 61, 246, 216, 99, 141, 55, 220, 112, 192, 2, 9, 36, 146, 75, 45, 180, 209, 70, 27, 108, 177, 197, 22]
+
+
+def road_windows(k):
+    """masks that need many trimming rounds: an induced path of the de Bruijn graph whose last vertex is a dead end (the generator must
+    drop one vertex per round), alone and next to a surviving complete component; a few free bits around it."""
+    road = ROAD3 if k == 3 else ROAD4
+    N = 4 ** k
+    base = [0] * N
+    for v in road:
+        base[v] = 1
+    free = [road[0], road[-1], road[len(road) // 2]]
+    return [(base, sorted(free))]
+
+
 def windows(k, tier):
     """list of (base mask, free positions)."""
     N = 4 ** k
